@@ -97,6 +97,7 @@ def run(vc):
                     # the gen row this cost row addresses: by the contract of _map_costs_to_gen / _get_gen_index
                     # it is the lookup of the element's own label (dcline: the to-side auxiliary gen)
                     g = _expected_gen(net, et, cost)
+                    p.assume(to_z(g, I) >= 0)      # generic row: a cost entry of an element that has a row in ppci["gen"]
                     sig = SIGMA[et]
                     PG = real("PG")
                     pres = arith("*", sig, PG)
@@ -132,9 +133,11 @@ def _expected_gen(net, et, cost):
         dcl = net.fields.raw("dcline")
         gen_t = net.fields.raw("gen")
         pos = dcl.pos_of(to_z(cost.cols["element"], I))
-        elem = gen_t.space.n - 2 * dcl.space.n + pos * 2 + 1
+        position = gen_t.space.n - 2 * dcl.space.n + pos * 2 + 1
         a = lk.raw("gen")
         from pyvc.arrays import subst
+        # the gen lookup is addressed by index labels: the label of the gen at that position (labels need not be 0..n-1)
+        elem = to_z(subst(gen_t.index_e, gen_t.space.i, position), I)
         return subst(a.e, a.space.i, elem)
     a = lk.raw(name)
     from pyvc.arrays import subst
@@ -211,8 +214,22 @@ def run_pwl(vc):
             if out.raised:
                 raise EngineError(f"_get_gen_index raised {out.exc!r}")
             cost.cols["element"] = SV(element)
-            p.prove(f"gen-index[{et}]", to_z(out.value, I) == to_z(_expected_gen(net, et, cost), I),
-                    note="lookup of the element's own label in the lookup table of its own element type")
+            want = to_z(_expected_gen(net, et, cost), I)
+            got = out.value
+            # elements that are out of service / not controllable have no row in ppci["gen"]: the lookup holds -1 for them and the
+            # cost entry must not be mapped to any gen row (it would replace the cost of another element)
+            if got is None:
+                p.prove(f"gen-index[{et}]:none-only-without-gen-row", want < 0,
+                        note="None is returned only for elements without a row in ppci['gen']")
+            else:
+                gz = got.z if isinstance(got, SV) else to_z(got, I)
+                if gz.sort() == PV:
+                    ok = gz == z3.If(want >= 0, PV.i(want), PV.none)
+                else:
+                    ok = z3.And(want >= 0, gz == want)
+                p.prove(f"gen-index[{et}]", ok,
+                        note="lookup of the element's own label in the lookup table of its own element type; None (never a negative row) for "
+                             "elements without a row in ppci['gen']")
         vc.explore(f"_get_gen_index[{et}]", h_idx, max_paths=8)
 
     # (3) piecewise linear costs (bounded: 1..3 areas per cost function; all values symbolic)
@@ -284,9 +301,13 @@ def run_pwl(vc):
             fs = [gencost.row_of(None, g, COST + 1, p.it), gencost.row_of(None, g, COST + 3, p.it)]
             PG = real("PG")
             p.assume(compare("<", pmin, pmax))
-            user = arith("*", cost.cols["cp1_eur_per_mw"], arith("*", SIGMA[et], PG))
+            # the user's cost function of a linear polynomial entry: cp1 * p + cp0 (property statement), p = the element's own power
+            user = arith("+", arith("*", cost.cols["cp1_eur_per_mw"], arith("*", SIGMA[et], PG)), cost.cols["cp0_eur"])
+            lin = arith("*", cost.cols["cp1_eur_per_mw"], arith("*", SIGMA[et], PG))
+            p.prove(f"linear-as-pwl[{et}]:cp1", z3.Implies(to_z(cost.cols["cp0_eur"], R) == 0, to_z(_pwl_eval(xs, fs, PG), R) == to_z(lin, R)),
+                    note="two-point pwl row equals cp1 * (element's own power) for entries without a constant term")
             p.prove(f"linear-as-pwl[{et}]", to_z(_pwl_eval(xs, fs, PG), R) == to_z(user, R),
-                    note="two-point pwl row equals cp1 * (element's own power)")
+                    note="two-point pwl row equals cp1 * (element's own power) + cp0", meta=dict(finding=F_LIN))
             p.prove(f"linear-as-pwl:ncost[{et}]", to_z(gencost.row_of(None, g, NCOST, p.it), R) == 2)
         vc.explore(f"_add_linear_costs_as_pwl_cost[{et}]", h_lin, max_paths=8)
 
@@ -305,6 +326,7 @@ _run_poly = run
 def run(vc):
     _run_poly(vc)
     run_pwl(vc)
+    _standins(vc)
 
 
 def classify(ob, model):
@@ -316,8 +338,33 @@ def classify(ob, model):
     return ob.meta.get("label", ob.id).split("[")[0]
 
 
+F_LIN = "C17/linear-costs-next-to-pwl-costs-lose-cp0-and-q-terms"
+KNOWN_EXCLUSIONS = {F_LIN: lambda ob: True if ob.meta.get("finding") == F_LIN else None}
+
+
+def _standins(vc):
+    if not hasattr(vc, "native_standins"):
+        vc.native_standins = []
+    vc.native_standins.append(dict(
+        name="res_cost against the user's cost functions on fixed OPF problems",
+        bound="3-bus ring with two gens, AC and DC OPF: a cost entry of a dropped / out-of-service element next to others, linear costs with "
+              "constant and reactive terms next to a pwl cost, a lone cq0, a dcline cost with gen labels (0, 1) and (3, 1)",
+        script="import sys\nfrom replaylib.opf_cost import main_dropped_row, main_more\n"
+               "for f in (main_dropped_row, main_more):\n    try:\n        f()\n    except SystemExit as e:\n        if e.code:\n            raise\n",
+        timeout=900,
+        known={F_LIN: r"REPRODUCED: linear costs with cp0 / cq1 / cq0 next to a pwl cost, run(dc)?opp: "}))
+
+
 def replay(ob, model, finding=None):
     m = ob.meta
+    if finding == F_LIN or m.get("finding") == F_LIN:
+        return {"script": f"# replay of {ob.id}\nfrom replaylib.opf_cost import main_more\nmain_more(only='next to a pwl cost')\n",
+                "description": "linear polynomial costs with cp0 / cq1 / cq0 on a gen next to a pwl cost on the ext_grid: res_cost vs the user's "
+                               "cost functions"}
+    if m.get("label", "").startswith(("gen-index", "linear-as-pwl")) or (m.get("et") == "dcline" and not m.get("pwl")):
+        return {"script": f"# replay of {ob.id}\nfrom replaylib.opf_cost import main_more\nmain_more()\n",
+                "description": "OPF problems with cost entries of out-of-service elements, constant / reactive cost terms, dcline costs with "
+                               "unsorted gen labels: res_cost vs the user's cost functions"}
     et = m.get("et")
     lab = m.get("label", "")
     if lab.startswith("map:") or lab.startswith("side:aligned"):
